@@ -105,6 +105,17 @@ type Schedule struct {
 	// runs costs this much simulated time (0: computing takes no simulated time at all). The
 	// clock is advanced before the code under test reads it and at least every few hundred yields.
 	YieldCostNs int64 `json:"yieldCostNs,omitempty"`
+	// StartOffsetNs: the simulated clock is moved forward by this much before the first call
+	// (the bubble's clock starts at 2000-01-01T00:00:00Z): the moment of the call.
+	StartOffsetNs int64 `json:"startOffsetNs,omitempty"`
+}
+
+// ProcEnv: the process the calls are made in — environment variables (TZ, LANG, ...), the
+// number of Ps and the number of CPUs the runtime sees (affinity mask).
+type ProcEnv struct {
+	Env        map[string]string `json:"env,omitempty"`
+	GOMAXPROCS int               `json:"gomaxprocs,omitempty"`
+	CPUs       int               `json:"cpus,omitempty"`
 }
 
 type MapOrder struct {
@@ -138,6 +149,7 @@ type Observed struct {
 type Plan struct {
 	Format     int      `json:"format"`
 	Property   string   `json:"property"`
+	Proc       *ProcEnv `json:"proc,omitempty"`
 	Batch      string   `json:"batch,omitempty"`
 	Seed       uint64   `json:"seed"`
 	Run        int      `json:"run"`
